@@ -8,18 +8,22 @@ NA = {
 PENDING = "check under construction in this build round (DESIGN.md section 8 build order); not claimed until its check is committed"
 
 CHECKS = {
+ "C14": ("E-read", "exploration", "counters at the source-iterator seam (primitives) and at the open() seam (interfaces) while k elements are taken from short, long (40-90 shards) and infinite streams, with scheduler policies that starve the consumer so workers run as far ahead as the code allows; bound 4(b+T)+8 independent of stream length; taking k from an infinite stream must terminate within the step budget", "TFRecord/Rust file opens are invisible at the Python seam (Rust read-ahead is measured in the Rust harness of C15)", "deterministic simulation (consumer-starving seeded schedules) with counting seams", "3/C14"),
+ "C19": ("E-read", "exploration", "prefixes of 2-4 epochs of the repeat=True stream of every interface under seeded schedules: membership, byte-exactness, periodicity when unshuffled, per-epoch permutation for the Rust reader, progress within the step budget, no simulated thread left after abandonment", "Rust/tf.data uncontrolled (observed executions)", "deterministic simulation (seeded schedules) of repeating streams against the one-pass reference", "3/C19"),
  "C02": ("E-read", "exploration", "buffering primitives (shuffle buffer, round robin, LazyPool composition; sync and async) and every iteration interface over generated datasets with a counting process_record; LazyPool path under the seeded baton scheduler, executor path on a simulated executor, async path on a virtual-time loop with seeded I/O completion order; Rust and tf.data observed as real uncontrolled executions", "Rust worker threads and tf.data threads are not scheduled by the simulator (multiset assertions only); SimExecutor is a stub", "deterministic simulation (seeded thread/IO-completion schedules) of the real reader code against a reference model", "3/C02"),
  "C03": ("E-read", "exploration", "shuffle=0 sequences of all interfaces compared across parallelism, passes, reopen and seeded completion orders; write-order oracle from the reference model with multi-writer sessions run on the simulated process pool", "cross-session order is not asserted (the property does not fix it); Rust/tf.data uncontrolled", "deterministic simulation (seeded completion orders of executor tasks, async reads and simulated writer processes) + reference-model order oracle", "3/C03"),
  "C06": ("E-crash", "fault_enumeration", "every file-system effect boundary (open, each partial write chunk, close, rename, mkdir; per-record for TFRecord) of a seeded crashing session is a crash point at which the directory is re-opened, walked, digested and fully iterated; torn writes come from a chunking raw-file layer; a concurrent reader task is interleaved by the scheduler; tens of thousands of crash instants per quick run", "crash = process death with the OS up (no fsync/power-loss reordering); TensorFlow's C++ writes are not chunked", "deterministic simulation with fault injection: crash at every FS-effect boundary + torn writes + interleaved reader", "3/C06"),
  "C04": ("E-sess", "exploration", "seeded histories of completed sessions (root / fresh, reused and nested sub-directories / multi-writer calls under simulated worker interleavings, reopen or keep) with an independent plain-json walker and a full decode of every shard after every session; hundreds of distinct histories per quick run", "reference walker and per-format shard decoder are trusted; SimPool is a stub for multiprocessing.Pool; TFRecord I/O not intercepted", "deterministic simulation (seeded session histories + simulated process pool) against an independent metadata walker", "3/C04"),
+ "C07": ("E-read", "exploration", "stored-byte faults (deleted, emptied, truncated, garbage shard; first/middle/last; one or two shards) under every iteration interface; the seeded scheduler decides which worker meets the damaged shard and when (LazyPool with queue- and line-level pre-emption, SimExecutor, virtual-time loop); exact deadlock verdict for controlled components, forked child + watchdog (+ fresh-interpreter confirmation for tf.data) for uncontrolled ones", "damage the decoder accepts is out of scope; Rust worker threads and tf.data are uncontrolled; the Rust silent-truncation defect is an open known finding", "deterministic simulation with fault injection (stored-byte faults x seeded worker schedules, exact deadlock detection)", "3/C07"),
  "C08": ("E-sess", "exploration", "seeded session histories with reopen against a reference model (multiset per split, byte-exact), every session kind of the statement; Dataset.create over an existing dataset must raise and leave the tree byte-identical", "reference model trusted; SimPool stub; one live handle at a time", "deterministic simulation (seeded session histories with restart) against a reference model", "3/C08"),
  "C10": ("E-sess", "exploration", "invariant over every recorded shard after every session of seeded histories with counts around multiples of examples_per_shard, interleaved splits and metadata changes", "no schedule dimension of its own (stated in DESIGN.md): the simulator contributes generated histories and multi-writer interleavings", "deterministic simulation harness as history generator + invariant over recorded shards", "3/C10"),
  "C11": ("E-sess", "exploration", "seeded write sequences whose metadata argument is absent, repeated, alternating, a fresh equal copy or one dict mutated in place (aliasing fault), model snapshots the argument at call time; label of the containing shard and selection by metadata are checked", "no schedule dimension of its own; examples written without metadata are unconstrained (documented inheritance)", "deterministic simulation harness as history generator with injected caller-side aliasing", "3/C11"),
+ "C12": ("E-read", "exploration", "a seeded sequence of selections (first-k, predicate, per-metadata limit and combinations) on one dataset handle through every interface accepting the option, compared with the documented rule applied to an independently walked shard table; empty selections must raise", "schedule dimension is thin (the selection routine is sequential); concurrent interfaces run under their seeded schedules with the option on", "deterministic simulation harness (E-read) + reference selection model", "3/C12"),
  "C13": ("E-pool", "exploration", "seeded search over interleavings of the real LazyPool (T+1 threads) at queue-operation and source-line granularity with exact deadlock detection; tens of thousands of distinct schedules per quick run; evidence not proof", "trusts the simulated queue/threading semantics; pre-emption at queue ops, function calls and (sampled) source lines, not bytecodes", "deterministic simulation with fault injection (seeded baton scheduler, failing mapped function)", "3/C13, 2.2"),
 }
 ENGINES = [
  {"name": "E-pool", "path": "simlib/sched.py", "serves_properties": ["C13"], "kind_free_text": "baton scheduler: real OS threads, one runnable at a time, seeded choice at every queue/lock/sleep/line yield point, exact deadlock detection"},
- {"name": "E-read", "path": "simlib/eread.py", "serves_properties": ["C02", "C03"], "kind_free_text": "iteration interfaces over generated datasets: LazyPool on the baton scheduler, SimExecutor, virtual-time asyncio loop (simlib/simloop.py), real Rust extension and tf.data uncontrolled"},
+ {"name": "E-read", "path": "simlib/eread.py", "serves_properties": ["C02", "C03", "C07", "C12", "C14", "C19"], "kind_free_text": "iteration interfaces over generated datasets: LazyPool on the baton scheduler, SimExecutor, virtual-time asyncio loop (simlib/simloop.py), real Rust extension and tf.data uncontrolled"},
  {"name": "E-crash", "path": "simlib/ecrash.py", "serves_properties": ["C06"], "kind_free_text": "E-sess + crash oracle at every FS-effect boundary, torn writes, interleaved reader task"},
  {"name": "E-sess", "path": "simlib/esess.py", "serves_properties": ["C04", "C08", "C10", "C11"], "kind_free_text": "seeded session-history generator + reference model; real sedpack on tmpfs behind the instrumented FS seam; multi-writer calls on a simulated process pool"},
 ]
